@@ -676,9 +676,6 @@ func propC12(a *Analysis, r *Registry) {
 					startOK := func(k int, outward int) bool {
 						ia := xi.SingleAtom()
 						bk := e3.MustParse(fmt.Sprintf("kde.Sample.Bounds()#%d", k))
-						if xi.Equal(bk) {
-							return true
-						}
 						if ia == nil || ia.Name != "ite" || !ia.Args[2].Equal(bk) {
 							return false
 						}
